@@ -169,7 +169,9 @@ def write_replay(pid, verif_seed, idx, case, tape, v, digest, known=None):
         "signature": jsonable(v.get("signature")),
         "digest": digest,
     }
-    blob = json.dumps(body, indent=1, sort_keys=True, default=repr)
+    # NOT sort_keys: dict order inside a case (inputs, functions) is part of the case - it decides e.g. the
+    # order in which input files are written - and must survive the round trip through the replay file
+    blob = json.dumps(body, indent=1, default=repr)
     h = hashlib.sha256(json.dumps([case, tape], sort_keys=True, default=repr).encode()).hexdigest()[:10]
     path = os.path.join(VERIF, "replays", f"{pid}-{verif_seed}-{idx}-{h}.json")
     with open(path, "w") as f:
